@@ -58,6 +58,18 @@ INT_HELPERS = {
 }
 
 
+# what a dispatcher (try_binary: Option, eval_bin: Result) must return for integer operands, per operator
+DISPATCH_POST = """(op is Add ==> agrees_int(Some(v)_, ival(self) + ival(other)))
+        && (op is Sub ==> agrees_int(Some(v)_, ival(self) - ival(other)))
+        && (op is Mul ==> agrees_int(Some(v)_, ival(self) * ival(other)))
+        && (op is Lt ==> agrees_bool(Some(v)_, ival(self) < ival(other)))
+        && (op is Gt ==> agrees_bool(Some(v)_, ival(self) > ival(other)))
+        && (op is Le ==> agrees_bool(Some(v)_, ival(self) <= ival(other)))
+        && (op is Ge ==> agrees_bool(Some(v)_, ival(self) >= ival(other)))
+        && (op is Eq ==> agrees_bool(Some(v)_, ival(self) == ival(other)))
+        && (op is Ne ==> agrees_bool(Some(v)_, ival(self) != ival(other)))"""
+
+
 def common_rewrites(sn, erased_pred):
     rules.strip_vis_attrs(sn)
     rules.diagnostics(sn)
@@ -132,6 +144,25 @@ impl vstd::std_specs::convert::FromSpecImpl<bool> for ValueObj {
                 n_copies += 1
                 if n_copies % 40 == 1:
                     run.sample({"function": fname, "class": [a, b], "ensures": ' '.join(post.split())})
+    # general versions (same verbatim body, contract conditional on the operand classes): what the dispatchers call
+    for fname, post in specs.items():
+        g = Snippet(src.fn(fname, impl=r'ValueObj'), fname + ' (general)')
+        common_rewrites(g, pred)
+        if fname == 'try_or':
+            g.contract("ensures %s," % post)
+        else:
+            g.contract("ensures ((self is Int || self is Nat || self is Bool) && (other is Int || other is Nat || other is Bool)) ==> (%s)," % post.replace(',\n        ', ' && '))
+        if fname in ('try_floordiv', 'try_mod'):
+            g.body_prologue("broadcast use lemma_floor_quot_unique, lemma_floor_rem_unique, lemma_py_mod_pos;")
+        unit.add(g)
+    unit.raw("""    // @verified-in: kani unit C04 (h_try_div__* harnesses): try_div produces floats, which Verus does not model; the dispatchers only need it to exist
+    #[verifier::external_body]
+    fn try_div(self, other: Self) -> Option<Self> { unimplemented!() }
+""")
+    tb = Snippet(src.fn('try_binary', impl=r'ValueObj'), 'ValueObj::try_binary')
+    rules.strip_vis_attrs(tb)
+    tb.contract("ensures ((self is Int || self is Nat) && (other is Int || other is Nat)) ==> (%s)," % DISPATCH_POST.replace('res matches Ok(v)', 'res matches Some(v)').replace('Some(v)_', 'res'))
+    unit.add(tb)
     unit.raw("}\n")
     # eval.rs: eval_unary_val (unary +, -, not on constants)
     esrc = Source(run.repo, EVAL_RS)
@@ -154,9 +185,26 @@ impl vstd::std_specs::convert::FromSpecImpl<bool> for ValueObj {
             && (op is Neg && val is Inf ==> v is NegInf) && (op is Neg && val is NegInf ==> v is Inf)
         ),
         (val is Bool && (op is Neg || op is Pos)) ==> res is Err,""")
+    eb = Snippet(esrc.fn('eval_bin', impl=r'Context'), 'Context::eval_bin')
+    rules.strip_vis_attrs(eb)
+    # R4: `X.ok_or_else(|| E)` is `match X { Some(v) => Ok(v), None => Err(E) }`; E is an error value (R3)
+    from vlib.extract import make_mask, match_close
+    while True:
+        mask = make_mask(eb.text)
+        m = re.search(r'(lhs\.try_\w+\(rhs\))\.ok_or_else\(', mask)
+        if not m:
+            break
+        cp = match_close(mask, m.end() - 1)
+        eb.replace_range('R4', m.start(), cp + 1, '(match %s { Some(v) => Ok(v), None => Err(ext_eval_error()) })' % eb.text[m.start(1):m.end(1)],
+                         "X.ok_or_else(|| <error value>) -> match X { Some(v) => Ok(v), None => Err(ext_eval_error()) }")
+    _eval_errors(eb)
+    eb.erase_arms('R2', lambda pat: ' '.join(pat.split()) in ('Or | BitOr', 'And | BitAnd', 'BitXor', 'ClosedRange'))
+    eb.contract("ensures ((lhs is Int || lhs is Nat) && (rhs is Int || rhs is Nat)) ==> (%s)," % DISPATCH_POST.replace('self', 'lhs').replace('other', 'rhs').replace('Some(v)_', 'ok_some(res)'))
     unit.raw("impl Context {\n")
     unit.add(u)
+    unit.add(eb)
     unit.raw("}\n")
+    run.sample({"function": "Context::eval_bin", "ensures": "each operator is dispatched to the try_* function computing THAT operator: for integer operands Ok(v) carries the Python value of `lhs op rhs`"})
     run.sample({"function": "Context::eval_unary_val", "ensures": "Ok(v) with op=Neg on Int/Nat => ival(v) == -ival(val); never panics"})
     unit.raw("} // verus!\n")
     return unit
